@@ -1502,10 +1502,9 @@ where
                     .map(|e| std::ptr::eq(&**e.entry_info(), *info))
                     .unwrap_or(false);
                 if gone {
-                    let weight = unsafe { &**info }.accounted_weight();
-                    evicted = evicted.saturating_add(weight as u64);
-                    deq.move_front_to_back();
-                    continue;
+                    // Leave it at the LRU front and stop here: what is behind it will
+                    // be looked at again once its removal op has been applied.
+                    break;
                 }
             }
 
